@@ -236,8 +236,20 @@ class Program:
                 return np.shape(p1) == np.shape(p2) and bool(np.all(p1 == p2))
             return p1 == p2
 
+        def options_eq(op1, op2):
+            # post-selection values and dark counts of measurements are not in the parameter list
+            for attr in ("select", "dark_counts"):
+                v1, v2 = getattr(op1, attr, None), getattr(op2, attr, None)
+                if (v1 is None) != (v2 is None):
+                    return False
+                if v1 is not None and not par_eq(np.asarray(v1), np.asarray(v2)):
+                    return False
+            return True
+
         for self_cmd, prog_cmd in zip(self.circuit, prog.circuit):
-            names_eq = self_cmd.op.__class__ == prog_cmd.op.__class__
+            names_eq = self_cmd.op.__class__ == prog_cmd.op.__class__ and options_eq(
+                self_cmd.op, prog_cmd.op
+            )
             dagger_eq = getattr(self_cmd.op, "dagger", False) == getattr(prog_cmd.op, "dagger", False)
             param_eq = len(self_cmd.op.p) == len(prog_cmd.op.p) and all(
                 par_eq(p1, p2) for p1, p2 in zip(self_cmd.op.p, prog_cmd.op.p)
